@@ -68,14 +68,16 @@ MODE_THEOREMS = {
     "lfq": [("UrcuVerif.Props.SrcQueue", _sel("lfq"))],
     "defer": [("UrcuVerif.Props.SrcDefer", lambda n: True)],
     "futex-gp": [("UrcuVerif.Props.SrcFutex", _sel("wait_gp", "wake_up_gp", "hs_", "qs_", "wait_node", "adaptative", "wait_add"))],
-    "futex-callrcu": [("UrcuVerif.Props.SrcFutex", _sel("call_rcu", "cr_", "completion")), ("UrcuVerif.Props.SrcCallRcu", lambda n: True)],
+    "futex-callrcu": [("UrcuVerif.Props.SrcFutex", _sel("call_rcu", "cr_", "completion")), ("UrcuVerif.Props.SrcCallRcu", lambda n: True),
+                      ("UrcuVerif.Props.SrcTail", lambda n: True)],
     "futex-defer": [("UrcuVerif.Props.SrcFutex", _sel("defer", "df_"))],
     "futex-wq": [("UrcuVerif.Props.SrcFutex", _sel(".futex_wait", ".futex_wake_up", "wake_worker_thread")), ("UrcuVerif.Props.SrcWq", lambda n: True),
                  ("UrcuVerif.Props.SrcWq2", lambda n: True)],
     "poll": [("UrcuVerif.Props.SrcPoll", lambda n: True)],
     "reg": [("UrcuVerif.Props.SrcReg", lambda n: True)],
     "fork": [("UrcuVerif.Props.SrcFork", lambda n: True)],
-    "lfht": [("UrcuVerif.Props.SrcLfht", lambda n: True), ("UrcuVerif.Props.SrcLfht2", lambda n: True)],
+    "lfht": [("UrcuVerif.Props.SrcLfht", lambda n: True), ("UrcuVerif.Props.SrcLfht2", lambda n: True),
+             ("UrcuVerif.Props.SrcLfht3", lambda n: True)],
 }
 
 
@@ -83,7 +85,8 @@ MODE_THEOREMS = {
 INTEGRATED = {"UrcuVerif.Props.SrcRead", "UrcuVerif.Props.SrcSync", "UrcuVerif.Props.SrcStack", "UrcuVerif.Props.SrcQueue",
               "UrcuVerif.Props.SrcDefer", "UrcuVerif.Props.SrcFutex", "UrcuVerif.Props.SrcPoll", "UrcuVerif.Props.SrcWq",
               "UrcuVerif.Props.SrcCallRcu", "UrcuVerif.Props.SrcLfht",
-              "UrcuVerif.Props.SrcSync2", "UrcuVerif.Props.SrcWq2", "UrcuVerif.Props.SrcReg", "UrcuVerif.Props.SrcFork", "UrcuVerif.Props.SrcLfht2"}
+              "UrcuVerif.Props.SrcSync2", "UrcuVerif.Props.SrcWq2", "UrcuVerif.Props.SrcReg", "UrcuVerif.Props.SrcFork", "UrcuVerif.Props.SrcLfht2",
+              "UrcuVerif.Props.SrcLfht3", "UrcuVerif.Props.SrcTail"}
 
 
 def mode_theorems(mode):
